@@ -526,6 +526,14 @@ func (f *forest) applyReal(o op) (out outcome, created *env.Env) {
 		return outcome{newSc: true}, e.NewEnv()
 	case "NewModule":
 		m, err := e.NewModule(o.Name)
+		if err == nil && m != nil && o.Name == "m" {
+			// the module named m is then held the way a script can leave it: in a
+			// value of kind Interface (read from a list element, received from a
+			// chan interface); it is the same module under the same name
+			if derr := e.DefineValue(o.Name, reflect.ValueOf(struct{ V interface{} }{m}).Field(0)); derr != nil {
+				return outcome{err: "rebind:" + derr.Error(), newSc: true}, m
+			}
+		}
 		return outcome{err: errClass(err), newSc: m != nil}, m
 	case "GetEnvFromPath":
 		r, err := e.GetEnvFromPath(o.Path)
